@@ -26,6 +26,8 @@ type C16Node struct {
 	Lists  []int
 	// Lie: answers with another ID than the one it is advertised under
 	Lie bool
+	// AnnReply: how it answers the announce_peer it may receive: ok | error | silent
+	AnnReply string
 }
 
 type C16Sc struct {
@@ -49,6 +51,9 @@ type C16Sc struct {
 
 func genC16(t *rapid.T) C16Sc {
 	sc := C16Sc{InfoHash: genBytesN(t, 20, "infohash"), Port: genPort(t, "port"), Implied: rapid.Bool().Draw(t, "implied"), Scrape: rapid.Bool().Draw(t, "scrape")}
+	if arr20(sc.InfoHash) == ([20]byte{}) {
+		sc.InfoHash[0] = 1 // the wire format omits an all-zero info_hash; shrinking tends to produce it
+	}
 	sc.Mode = rapid.SampledFrom([]string{"announce", "announce", "announce", "noannounce"}).Draw(t, "mode")
 	if sc.Implied && rapid.Bool().Draw(t, "port0") {
 		sc.Port = 0
@@ -57,7 +62,7 @@ func genC16(t *rapid.T) C16Sc {
 	for i := 0; i < n; i++ {
 		nd := C16Node{IDCpl: rapid.IntRange(0, 20).Draw(t, "n.cpl"), IDTail: genBytesN(t, 20, "n.tail"),
 			Reply: rapid.SampledFrom([]string{"token", "token", "token", "token", "token", "empty-token", "no-token", "int-token", "error", "silent"}).Draw(t, "n.reply"),
-			Lie:   rapid.IntRange(0, 7).Draw(t, "n.lie") == 0}
+			Lie:   rapid.IntRange(0, 7).Draw(t, "n.lie") == 0, AnnReply: pick(t, "n.annreply", "ok", "ok", "ok", "ok", "error", "silent")}
 		if rapid.IntRange(0, 2).Draw(t, "n.hasvalues") == 0 {
 			nd.Values = rapid.IntRange(1, 5).Draw(t, "n.values")
 		}
@@ -199,6 +204,12 @@ func runC16(sc C16Sc, c *kit.Case) *kit.Violation {
 					violInHandler = kit.Violatef("C16:closed-before-announces-done", "the peers channel was closed while the announce_peer to %v had not been answered yet", addr)
 					mu.Unlock()
 				case <-time.After(time.Millisecond):
+				}
+				switch nd.AnnReply {
+				case "error":
+					return []SimReply{{Data: mkError(t, 203, "announce refused")}}
+				case "silent":
+					return nil
 				}
 				return []SimReply{{Data: mkResponse(t, stdReturn(answerID[i], nil, nil))}}
 			}
